@@ -170,7 +170,7 @@ def phase(case, ctx, rng, st, am, label, held, last):
     pr = ctx.lib("probability", st.probability, sp).numpy()
     Z = float(ctx.lib("normalization", st.normalization, sp))
     pi = pr / Z
-    tau = TAU * units + 1e-11
+    tau = gen.tau_sp(nv, am) + 1e-11
     inv = pi @ T_lib
     ctx.count("kernel_rows_checked", N)
     if np.any(np.abs(inv - pi) > tau * pi + 1e-14):
